@@ -103,6 +103,23 @@ pub fn task_state_settled(pid: i32, tid: i32, patience_ms: u64) -> (char, u64) {
     }
 }
 
+/// Is `sig` pending for the target (thread-directed: the thread's private set; process-directed: the
+/// shared set)? None if the status file cannot be read (target gone).
+pub fn sig_pending(pid: i32, tid: Option<i32>, sig: i32) -> Option<bool> {
+    let (path, key) = match tid {
+        Some(t) => (format!("/proc/{pid}/task/{t}/status"), "SigPnd:"),
+        None => (format!("/proc/{pid}/status"), "ShdPnd:"),
+    };
+    let st = std::fs::read_to_string(path).ok()?;
+    for l in st.lines() {
+        if let Some(rest) = l.strip_prefix(key) {
+            let mask = u64::from_str_radix(rest.trim(), 16).ok()?;
+            return Some(mask & (1u64 << (sig - 1)) != 0);
+        }
+    }
+    None
+}
+
 pub fn regs_json(tid: i32) -> Value {
     let mut regs: libc::user_regs_struct = unsafe { std::mem::zeroed() };
     let r = unsafe {
